@@ -435,10 +435,15 @@ fn parse_backend(input: ParseStream) -> Result<Backend> {
     let mut epilogue = None;
 
     while !content.is_empty() {
+        // a block may state several prologues / epilogues: all of them are kept, in source order
+        let append = |text: Option<String>, new_text: String| match text {
+            Some(text) => format!("{text}\n{new_text}"),
+            None => new_text,
+        };
         if let Some(new_prologue) = parse_block::<kw::prologue>(&content, kw::prologue)? {
-            prologue = Some(new_prologue);
+            prologue = Some(append(prologue, new_prologue));
         } else if let Some(new_epilogue) = parse_block::<kw::epilogue>(&content, kw::epilogue)? {
-            epilogue = Some(new_epilogue);
+            epilogue = Some(append(epilogue, new_epilogue));
         } else {
             return Err(content.error("expected prologue or epilogue"));
         }
